@@ -42,6 +42,55 @@ def big_set(tier):
     return mgh.atlas(5) + mgh.atlas(6) + mgh.atlas(7, 3)
 
 
+def small_partners():
+    """Every connected unlabelled graph on 1..4 vertices (as partners of the larger graphs: very different
+    sizes, similar diameters)."""
+    return mgh.atlas(1) + mgh.atlas(2) + mgh.atlas(3) + mgh.atlas(4)
+
+
+def _spider(legs):
+    n = 1 + sum(legs)
+    A = [[0] * n for _ in range(n)]
+    v = 1
+    for L in legs:
+        prev = 0
+        for _ in range(L):
+            A[min(prev, v)][max(prev, v)] = 1
+            prev = v
+            v += 1
+    return A
+
+
+SPIDERS = [(3, 3, 1, 1, 1), (2, 2, 2, 1, 1), (4, 2, 1, 1), (3, 2, 2, 1), (2, 2, 1, 1, 1, 1)]      # 8..10 vertices
+
+
+def run_big_vs_small(case, ctx):
+    """Column j of the table (larger graph x small partner): all larger graphs (and a few spiders on 8-10
+    vertices) against ONE small graph, or one spider against all small graphs; exact oracle."""
+    from mc.choices import Chooser
+    from persim import gromov_hausdorff
+
+    smalls = small_partners()
+    j = case["j"]
+    if j < len(smalls):
+        pairs = [(A, smalls[j]) for A in big_set(ctx.tier)] + [(_spider(L), smalls[j]) for L in SPIDERS]
+    else:
+        sp = _spider(SPIDERS[j - len(smalls)])
+        pairs = [(sp, B) for B in big_set(ctx.tier)[::3]]
+    with _seam.installed():
+        for A, B in pairs:
+            truth2 = {truth_of(A, B)}
+            for X, Y in ((A, B), (B, A)):
+                _seam.cache = {}
+                _seam.start_run(Chooser(()))
+                ctx.trans()
+                ctx.state(("bvs", j, repr(A), X is A))
+                res = gromov_hausdorff(np.array(X), np.array(Y))
+                check_bracket(ctx, X, Y, truth2, res, {"answers": "default", "family": "larger graph vs small graph"})
+    ctx.nontriv("larger_graph_against_small_graph", key=("bvs", j))
+    ctx.outcome(("bvs", j))
+
+
 def relabellings(n, full):
     import itertools
 
@@ -206,6 +255,8 @@ def cases(tier):
     for q in itertools.combinations(range(0, nc, 2), 4):
         yield {"kind": "collection", "idx": list(q)}
     S = big_set(tier)
+    for i in range(len(small_partners()) + len(SPIDERS)):
+        yield {"kind": "big-vs-small", "j": i}
     for i in range(len(S)):
         yield {"kind": "iso", "i": i}
     for i in range(len(S)):
@@ -323,6 +374,8 @@ def run_case(case, ctx):
         return run_collection(case, ctx)
     if case.get("kind") == "large":
         return run_large(case, ctx)
+    if case.get("kind") == "big-vs-small":
+        return run_big_vs_small(case, ctx)
     A, B = case["A"], case["B"]
     truth2 = {mgh.exact_double(mgh.bfs_dist(A).astype(np.int64), mgh.bfs_dist(B).astype(np.int64))}
     NA, NB = np.array(A), np.array(B)
